@@ -163,3 +163,20 @@ def parsedKeyCount (c : Bytes) : Option Nat :=
 def standardParam (sig : Bytes) : Bytes := UInt8.ofNat sig.length :: sig
 
 end ElaVerif.WalletCodec
+
+namespace ElaVerif.WalletCodec
+open ElaVerif.Digits ElaVerif.Script
+
+/-! ### keystore: the private-key slot of account.Client.SaveAccount / LoadAccounts -/
+
+/-- `SaveAccount`: the 32-byte slot `keyPair[64:96]`.  The code right-aligns `ac.PrivKey()` (which is
+    `D.Bytes()`, possibly shorter than 32 bytes) and leaves leading zeros; `leftAligned = true` is the
+    variant `copy(slot, priv)` kept for the negation witness.  Precondition: `priv.length ≤ 32`. -/
+def storeKey (leftAligned : Bool) (priv : Bytes) : Bytes :=
+  if leftAligned then priv ++ List.replicate (32 - priv.length) 0
+  else List.replicate (32 - priv.length) 0 ++ priv
+
+/-- `LoadAccounts`: `privateKey := keyPair[64:96]`, used as the scalar `new(big.Int).SetBytes(privateKey)` -/
+def loadScalar (slot : Bytes) : Nat := bytesToNat slot
+
+end ElaVerif.WalletCodec
